@@ -229,3 +229,48 @@ func resolveSpilled(v ssa.Value, at ssa.Instruction) ssa.Value {
 	}
 	return v
 }
+
+// stripDotNormalisation: v is `j` with the one normalisation `if j == "." { v = "" }` applied (a two-edge phi of the
+// constant "" and j, in a block whose dominating branch tests j against "."). Returns j; otherwise v itself.
+// path.Join(root, dir) == "." implies that root is "" (or "."), so the "" alternative forgets no root.
+func stripDotNormalisation(v ssa.Value) ssa.Value {
+	ph, ok := v.(*ssa.Phi)
+	if !ok || len(ph.Edges) != 2 {
+		return v
+	}
+	var j ssa.Value
+	empty := false
+	for _, e := range ph.Edges {
+		if s, isC := ssax.ConstString(e); isC && s == "" {
+			empty = true
+		} else {
+			j = e
+		}
+	}
+	if !empty || j == nil {
+		return v
+	}
+	for d := ph.Block(); d != nil; d = d.Idom() {
+		ifi, ok := d.Instrs[len(d.Instrs)-1].(*ssa.If)
+		if !ok {
+			continue
+		}
+		bo, ok := ifi.Cond.(*ssa.BinOp)
+		if !ok || bo.Op != token.EQL && bo.Op != token.NEQ {
+			continue
+		}
+		var other ssa.Value
+		switch {
+		case bo.X == j:
+			other = bo.Y
+		case bo.Y == j:
+			other = bo.X
+		default:
+			continue
+		}
+		if s, isC := ssax.ConstString(other); isC && s == "." {
+			return j
+		}
+	}
+	return v
+}
